@@ -62,7 +62,7 @@ fn c14b_direct_bits_twin_x86_k8() { direct_bits_twin(8, true); }
 
 // C15-C: every byte load of the assembly stays inside the chunk buffer for EVERY state the callers can produce
 // (pos <= len, len >= 1, count <= 32 - the loop bound is checked for count <= 6 here) and re-establishes pos <= len.
-//@ {"name":"c15c_asm_loads_in_bounds","props":["C15"],"obligation":"C15-C","timeout":1500,"mem_gb":9,"functions":["range_dec::RangeDecoder::decode_direct_bits_x86_64 (asm!, lowered)","range_dec::RangeDecoder::decode_direct_bits_aarch64 (asm!, lowered)"],"bounds":"8-byte buffer, buffer length 1..=8 symbolic; pos 0..=len; range, code any u32 (no invariant assumed); count 1..=6; both architectures; unwind 34","assumes":["pos <= buf.len() on entry (prepare() sets it; the function re-establishes it: inductive)"]}
+//@ {"name":"c15c_asm_loads_in_bounds","props":["C15"],"obligation":"C15-C","timeout":1500,"mem_gb":9,"functions":["range_dec::RangeDecoder::decode_direct_bits_x86_64 (asm!, lowered)","range_dec::RangeDecoder::decode_direct_bits_aarch64 (asm!, lowered)"],"bounds":"8-byte buffer, buffer length 1..=8 symbolic; pos 0..=len; range, code any u32 (no invariant assumed); count 1..=6; both architectures; unwind 34","assumes":["pos <= buf.len() on entry (prepare() sets it; the function re-establishes it: inductive)","the dispatch condition of decode_direct_bits (lowered from the source) holds"]}
 #[kani::proof]
 #[kani::unwind(34)]
 fn c15c_asm_loads_in_bounds() {
@@ -75,6 +75,8 @@ fn c15c_asm_loads_in_bounds() {
     let count: u32 = kani::any();
     kani::assume(count >= 1 && count <= 6);
     let x86: bool = kani::any();
+    // only states the dispatcher really hands to the assembly (its condition is lowered from the source too)
+    kani::assume(if x86 { model_dispatch_x86_64(pos, len, count) } else { model_dispatch_aarch64(pos, len, count) });
     let (mut mr, mut mc, mut mp, mut oob) = (range, code, pos, false);
     if x86 {
         model_direct_bits_x86_64(&mut mr, &mut mc, &mut mp, &bytes[..len], count, &mut oob);
@@ -83,7 +85,7 @@ fn c15c_asm_loads_in_bounds() {
     }
     assert!(!oob, "C15-C: assembly byte load outside the buffer");
     assert!(mp <= len || mp >= pos, "position moved backwards");
-    kani::cover!(mp >= len && pos < len, "ran to the end of the buffer");
+    kani::cover!(mp == len && pos < len, "consumed the last byte of the buffer");
     kani::cover!(x86, "x86-64 model");
     kani::cover!(!x86, "aarch64 model");
 }
